@@ -33,7 +33,12 @@ OptSeqs == {
      OptVal("KEEPALIVE", << <<0, 100>> >>),
      OptVal("EDE", << <<0, 18>>, <<72, 105>> >>) >>,
   << OptVal("KEEPALIVE", << <<>> >>), [k |-> 65001, v |-> <<1, 2, 3>>], OptVal("NSID", << <<>> >>) >>,
-  << OptVal("PADDING", << Rep(Big, 0) >>) >>
+  << OptVal("PADDING", << Rep(Big, 0) >>) >>,
+  \* text / opaque values with octets >= 0x80, invalid UTF-8, NUL, empty
+  << OptVal("EDE", << <<0, 7>>, <<99, 97, 102, 195>> >>) >>,               \* "caf" 0xC3
+  << OptVal("EDE", << <<0, 7>>, <<255>> >>), OptVal("EDE", << <<0, 1>>, <<>> >>),
+     OptVal("NSID", << <<0, 255, 195>> >>) >>,
+  << OptVal("EDE", << <<0, 3>>, <<115, 233, 101, 0>> >>), [k |-> 65001, v |-> <<195, 0, 255>>] >>
 }
 
 SvcSeqs == {
@@ -41,7 +46,8 @@ SvcSeqs == {
   << [k |-> 3, v |-> <<1, 187>>] >>,
   << [k |-> 1, v |-> <<2, 104, 50>>], [k |-> 3, v |-> <<0, 80>>] >>,
   << [k |-> 1, v |-> <<2, 104, 50, 2, 72, 51>>], [k |-> 2, v |-> <<>>],
-     [k |-> 4, v |-> <<192, 0, 2, 1, 192, 0, 2, 2>>], [k |-> 65280, v |-> <<65, 0, 255>>] >>
+     [k |-> 4, v |-> <<192, 0, 2, 1, 192, 0, 2, 2>>], [k |-> 65280, v |-> <<65, 0, 255>>] >>,
+  << [k |-> 65280, v |-> <<195>>], [k |-> 65281, v |-> <<>>], [k |-> 65282, v |-> <<0, 255, 128>>] >>
 }
 
 Gws == {
@@ -61,12 +67,14 @@ Dom(f) ==
            IN {Rep(w, 0), Rep(w, 255), [i \in 1..w |-> IF i = w THEN 1 ELSE 0],
                [i \in 1..w |-> IF i = 1 THEN 128 ELSE 0]}
       [] k = "Name"       -> Names5
-      [] k \in {"CharStr", "LP8"} -> {<<>>, <<0>>, <<65, 122>>, Rep(255, 81)}
+      [] k \in {"CharStr", "LP8"} -> {<<>>, <<0>>, <<65, 122>>, Rep(255, 81), <<195>>, <<255, 0, 128>>}
       [] k = "CaaTag"     -> {<<97>>, <<73, 115, 115, 85, 101, 48>>, Rep(255, 122)}
-      [] k = "LP16"       -> {<<>>, <<1>>, Ramp(Big, 0)}
-      [] k = "Rest"       -> {<<>>, <<0>>, <<65, 0, 255>>, Ramp(f.min, 5), Ramp(Big, 1)}
+      [] k = "LP16"       -> {<<>>, <<1>>, Ramp(Big, 0), <<195>>, <<255, 0, 128>>}
+      [] k = "Rest"       -> {<<>>, <<0>>, <<65, 0, 255>>, Ramp(f.min, 5), Ramp(Big, 1), <<195>>,
+                              [i \in 1..(f.min + 2) |-> IF i % 2 = 0 THEN 195 ELSE 255]}
       [] k = "CharStrSeq" -> {<<>>, << <<>> >>, << <<72, 105>> >>,
-                              << <<72, 105>>, <<>>, Rep(255, 81) >>}
+                              << <<72, 105>>, <<>>, Rep(255, 81) >>,
+                              << <<195>>, <<255, 0, 128>> >>}
       [] k = "TypeBitmap" -> {{}, {1}, {1, 47, 65534}, {0, 255, 256, 1234}}
       [] k = "SvcParams"  -> SvcSeqs
       [] k = "OptSeq"     -> OptSeqs
